@@ -86,7 +86,7 @@ Definition kind_label (k : N) : bytes :=
     end%string.
 
 End WalConst.
-Import WalConst.
+Export WalConst.
 
 Definition rkind_valid (k : N) : bool := (1 <=? k) && (k <=? 31).   (* WalRecordKind::from_code *)
 Definition comp_valid (k : N) : bool := k =? 0.                       (* WalCompressionKind *)
@@ -94,8 +94,14 @@ Definition red_valid (k : N) : bool := (1 <=? k) && (k <=? 5).        (* WalReda
 Definition txkind_valid (k : N) : bool := (1 <=? k) && (k <=? 12).    (* WalTransactionKind *)
 Definition dur_valid (k : N) : bool := (1 <=? k) && (k <=? 5).        (* WalDurabilityMode *)
 
-Definition two256 : N := 2 ^ 256.
-Definition h32b (x : N) : bytes := be_bytes 32 x.
+(* [Base.Bytes.le_bytes] with shifts instead of div/mod (equal, see WalProofs.le_b_eq): the model is
+   executed on real segments and 256-bit div/mod dominates otherwise *)
+Fixpoint le_b (n : nat) (x : N) : bytes :=
+  match n with
+  | O => []
+  | S n' => N.land x 255 :: le_b n' (N.shiftr x 8)
+  end.
+Definition h32b (x : N) : bytes := rev (le_b 32 x).
 
 (* ------------------------------------------------------------------ records *)
 Record frame := {
@@ -131,7 +137,7 @@ Fixpoint bytes_eqb (a b : bytes) : bool :=
 
 Section WithHash.
 Variable H : bytes -> N.
-Definition H32 (p : bytes) : N := H p mod two256.
+Definition H32 (p : bytes) : N := N.land (H p) (N.ones 256).
 
 (* checksum32: first four digest bytes as a little-endian u32 *)
 Definition checksum32 (d p : bytes) : N := from_le (firstn 4 (h32b (H32 (d ++ p)))).
@@ -139,39 +145,39 @@ Definition checksum32 (d p : bytes) : N := from_le (firstn 4 (h32b (H32 (d ++ p)
 (* ------------------------------------------------------------------ preimages *)
 (* WalRecordPayload::digest *)
 Definition payload_pre (f : frame) : bytes :=
-  dom_payload ++ kind_label (f_kind f) ++ le_bytes 2 (f_psver f) ++
-  le_bytes 8 (lenN (f_pbytes f)) ++ f_pbytes f.
+  dom_payload ++ kind_label (f_kind f) ++ le_b 2 (f_psver f) ++
+  le_b 8 (lenN (f_pbytes f)) ++ f_pbytes f.
 Definition payload_digest (f : frame) : N := H32 (payload_pre f).
 
 (* WalFrameHeader::checksum_input *)
 Definition hdr_input (inc : bool) (f : frame) : bytes :=
-  le_bytes 2 (f_ver f) ++ h32b (f_epoch f) ++ le_bytes 8 (f_seg f) ++ le_bytes 8 (f_lsn f) ++
-  h32b (f_tx f) ++ le_bytes 4 (f_idx f) ++ kind_label (f_kind f) ++ le_bytes 8 (f_plen f) ++
-  h32b (f_pdig f) ++ h32b (f_codec f) ++ h32b (f_schema f) ++ le_bytes 2 (f_sver f) ++
-  le_bytes 2 (f_cver f) ++ h32b (f_domain f) ++ [f_comp f] ++ [f_red f] ++ h32b (f_prev f) ++
-  (if inc then le_bytes 4 (f_hchk f) else []).
+  le_b 2 (f_ver f) ++ h32b (f_epoch f) ++ le_b 8 (f_seg f) ++ le_b 8 (f_lsn f) ++
+  h32b (f_tx f) ++ le_b 4 (f_idx f) ++ kind_label (f_kind f) ++ le_b 8 (f_plen f) ++
+  h32b (f_pdig f) ++ h32b (f_codec f) ++ h32b (f_schema f) ++ le_b 2 (f_sver f) ++
+  le_b 2 (f_cver f) ++ h32b (f_domain f) ++ [f_comp f] ++ [f_red f] ++ h32b (f_prev f) ++
+  (if inc then le_b 4 (f_hchk f) else []).
 Definition hdr_checksum (f : frame) : N := checksum32 dom_hdr (hdr_input false f).
 (* compute_frame_checksum *)
 Definition fchk_input (f : frame) : bytes :=
-  hdr_input true f ++ h32b (payload_digest f) ++ le_bytes 8 (lenN (f_pbytes f)) ++ f_pbytes f.
+  hdr_input true f ++ h32b (payload_digest f) ++ le_b 8 (lenN (f_pbytes f)) ++ f_pbytes f.
 Definition frame_checksum (f : frame) : N := checksum32 dom_fchk (fchk_input f).
 (* WalFrame::digest *)
 Definition frame_digest_pre (f : frame) : bytes :=
-  dom_frame ++ hdr_input true f ++ h32b (payload_digest f) ++ le_bytes 4 (f_fchk f).
+  dom_frame ++ hdr_input true f ++ h32b (payload_digest f) ++ le_b 4 (f_fchk f).
 Definition frame_digest (f : frame) : N := H32 (frame_digest_pre f).
 (* records_root *)
 Definition root_pre (fs : list frame) : bytes :=
-  dom_root ++ le_bytes 8 (lenN fs) ++ flat_map (fun f => h32b (frame_digest f)) fs.
+  dom_root ++ le_b 8 (lenN fs) ++ flat_map (fun f => h32b (frame_digest f)) fs.
 Definition records_root (fs : list frame) : N := H32 (root_pre fs).
 (* WalTransactionCommit::compute_digest *)
 Definition commit_pre (c : commit) : bytes :=
-  dom_commit ++ h32b (c_epoch c) ++ h32b (c_tx c) ++ [c_kind c] ++ le_bytes 8 (c_first c) ++
-  le_bytes 8 (c_last c) ++ le_bytes 8 (c_count c) ++ h32b (c_root c) ++ h32b (c_froot c) ++
-  h32b (c_prev c) ++ [c_dur c] ++ le_bytes 2 (c_sver c).
+  dom_commit ++ h32b (c_epoch c) ++ h32b (c_tx c) ++ [c_kind c] ++ le_b 8 (c_first c) ++
+  le_b 8 (c_last c) ++ le_b 8 (c_count c) ++ h32b (c_root c) ++ h32b (c_froot c) ++
+  h32b (c_prev c) ++ [c_dur c] ++ le_b 2 (c_sver c).
 Definition commit_digest (c : commit) : N := H32 (commit_pre c).
 (* disk_record_digest *)
 Definition disk_pre (kind : N) (payload : bytes) : bytes :=
-  dom_disk ++ [kind] ++ le_bytes 8 (lenN payload) ++ payload.
+  dom_disk ++ [kind] ++ le_b 8 (lenN payload) ++ payload.
 Definition disk_digest (kind : N) (payload : bytes) : N := H32 (disk_pre kind payload).
 
 (* WalFrame::validate_integrity (RecordKindMismatch cannot arise: one kind field) *)
@@ -184,12 +190,12 @@ Definition frame_ok (f : frame) : bool := match frame_check f with None => true 
 
 (* ------------------------------------------------------------------ codecs *)
 Definition encode_frame (f : frame) : bytes :=
-  le_bytes 2 (f_ver f) ++ h32b (f_epoch f) ++ le_bytes 8 (f_seg f) ++ le_bytes 8 (f_lsn f) ++
-  h32b (f_tx f) ++ le_bytes 4 (f_idx f) ++ [f_kind f] ++ le_bytes 8 (f_plen f) ++
-  h32b (f_pdig f) ++ h32b (f_codec f) ++ h32b (f_schema f) ++ le_bytes 2 (f_sver f) ++
-  le_bytes 2 (f_cver f) ++ h32b (f_domain f) ++ [f_comp f] ++ [f_red f] ++ h32b (f_prev f) ++
-  le_bytes 4 (f_hchk f) ++ le_bytes 2 (f_psver f) ++ le_bytes 8 (lenN (f_pbytes f)) ++
-  f_pbytes f ++ le_bytes 4 (f_fchk f).
+  le_b 2 (f_ver f) ++ h32b (f_epoch f) ++ le_b 8 (f_seg f) ++ le_b 8 (f_lsn f) ++
+  h32b (f_tx f) ++ le_b 4 (f_idx f) ++ [f_kind f] ++ le_b 8 (f_plen f) ++
+  h32b (f_pdig f) ++ h32b (f_codec f) ++ h32b (f_schema f) ++ le_b 2 (f_sver f) ++
+  le_b 2 (f_cver f) ++ h32b (f_domain f) ++ [f_comp f] ++ [f_red f] ++ h32b (f_prev f) ++
+  le_b 4 (f_hchk f) ++ le_b 2 (f_psver f) ++ le_b 8 (lenN (f_pbytes f)) ++
+  f_pbytes f ++ le_b 4 (f_fchk f).
 
 (* decode_frame without the final validate_integrity *)
 Definition parse_frame (bs : bytes) : res frame :=
@@ -231,9 +237,9 @@ Definition decode_frame (bs : bytes) : res frame :=
   if frame_ok f then Ok f else Err EEmbedded.
 
 Definition encode_commit (c : commit) : bytes :=
-  h32b (c_epoch c) ++ h32b (c_tx c) ++ [c_kind c] ++ le_bytes 8 (c_first c) ++
-  le_bytes 8 (c_last c) ++ le_bytes 8 (c_count c) ++ h32b (c_root c) ++ h32b (c_froot c) ++
-  h32b (c_prev c) ++ [c_dur c] ++ le_bytes 2 (c_sver c) ++ h32b (c_digest c).
+  h32b (c_epoch c) ++ h32b (c_tx c) ++ [c_kind c] ++ le_b 8 (c_first c) ++
+  le_b 8 (c_last c) ++ le_b 8 (c_count c) ++ h32b (c_root c) ++ h32b (c_froot c) ++
+  h32b (c_prev c) ++ [c_dur c] ++ le_b 2 (c_sver c) ++ h32b (c_digest c).
 
 Definition decode_commit (bs : bytes) : res commit :=
   let* (epoch, r) := rd_h bs in
@@ -260,7 +266,7 @@ Definition decode_commit (bs : bytes) : res commit :=
 (* ------------------------------------------------------------------ layer A: disk records *)
 (* append_segment_record *)
 Definition enc_rec (kind : N) (payload : bytes) : bytes :=
-  magic ++ [kind] ++ le_bytes 8 (lenN payload) ++ payload ++ h32b (disk_digest kind payload).
+  magic ++ [kind] ++ le_b 8 (lenN payload) ++ payload ++ h32b (disk_digest kind payload).
 
 (* read_segment_bytes, generic in the per-kind payload decoder *)
 Section Read.
